@@ -4,6 +4,7 @@ import (
 	"strings"
 
 	"github.com/zclconf/go-cty/cty"
+	"github.com/zclconf/go-cty/cty/convert"
 
 	"verif/harness/convgen/cause"
 	"verif/harness/spec"
@@ -130,6 +131,11 @@ func shapeMis(inT *spec.T, tgt spec.T, under bool) bool {
 		case spec.KList, spec.KSet:
 			return shapeMis(inT.E, *tgt.E, under)
 		case spec.KTuple:
+			// dynamicReplace descends into the unsafe unification of the
+			// member types (which may be a map made from objects)
+			if u := unifiedOf(inT.Elems); u != nil {
+				return shapeMis(u, *tgt.E, under)
+			}
 			for i := range inT.Elems {
 				if shapeMis(&inT.Elems[i], *tgt.E, under) {
 					return true
@@ -141,6 +147,9 @@ func shapeMis(inT *spec.T, tgt spec.T, under bool) bool {
 		case spec.KMap:
 			return shapeMis(inT.E, *tgt.E, under)
 		case spec.KObject:
+			if u := unifiedOf(attrTypesOf(inT)); u != nil {
+				return shapeMis(u, *tgt.E, under)
+			}
 			for i := range inT.Attrs {
 				if shapeMis(&inT.Attrs[i].T, *tgt.E, under) {
 					return true
@@ -175,6 +184,38 @@ func shapeMis(inT *spec.T, tgt spec.T, under bool) bool {
 		}
 	}
 	return false
+}
+
+func attrTypesOf(t *spec.T) []spec.T {
+	out := make([]spec.T, len(t.Attrs))
+	for i, a := range t.Attrs {
+		out[i] = a.T
+	}
+	return out
+}
+
+// unifiedOf asks the library for the unsafe unification of the given types,
+// as dynamicReplace does (classification only: the answer decides which known
+// root cause a failure is attributed to, never whether a case passes).
+func unifiedOf(ts []spec.T) (ret *spec.T) {
+	defer func() {
+		if recover() != nil {
+			ret = nil
+		}
+	}()
+	if len(ts) == 0 {
+		return nil
+	}
+	cts := make([]cty.Type, len(ts))
+	for i, t := range ts {
+		cts[i] = t.Cty()
+	}
+	u, _ := convert.UnifyUnsafe(cts)
+	if u == cty.NilType {
+		return nil
+	}
+	r := spec.FromCty(u)
+	return &r
 }
 
 // typeDiffUnderEmpty: the abstract result type ar and the concrete result type
@@ -302,6 +343,9 @@ func errorCause(err error, in cty.Value, target spec.T) string {
 	}
 	if err != nil && strings.Contains(err.Error(), "types must all match") && unknownMapToOptDyn([]cty.Value{in}, &it, target) {
 		return causeUnknownMapOptDyn
+	}
+	if err != nil && strings.Contains(err.Error(), "types must all match") && !in.IsWhollyKnown() && shapeMismatch(&it, target) {
+		return causeShapeMismatch
 	}
 	return ""
 }
